@@ -1,5 +1,6 @@
 import IbcVerif.Util.J
 import IbcVerif.Model.World
+import IbcVerif.Model.Admin
 open Lean
 namespace IbcVerif.Driver.World
 open IbcVerif.J IbcVerif.World
@@ -36,6 +37,8 @@ def handle (f : String) (j : Json) : Option (Except String Json) :=
       let tm ← nat j "time"
       let hr : Option Nat := if (← bool j "received") then some n else none
       pure <| acc (timeoutAcceptLocalhost (fun _ => tm) t (← nat j "rev") n (← nat j "P") hr)
+  | "auth.admin" => some do
+      pure <| Json.mkObj [("passed", IbcVerif.Admin.validateAuthority (← str j "authority") (← str j "signer"))]
   | _ => none
 
 end IbcVerif.Driver.World
